@@ -35,6 +35,11 @@ benign("recorder-local-renamed", "locals in StartRecording renamed", (CF, "write
 benign("threshold-temp-variable", "threshold computed through a differently named local", (MO, "func (d *motionDetector) calculateThreshold(backAverage float64) {\n\tif d.tempThreshMin != 0 {\n\t\tbackAverage = math.Max(backAverage, float64(d.tempThreshMin))\n\t}\n\tif d.tempThreshMax != 0 {\n\t\tbackAverage = math.Min(backAverage, float64(d.tempThreshMax))\n\t}\n\td.tempThresh = uint16(backAverage)",
        "func (d *motionDetector) calculateThreshold(backAverage float64) {\n\tlimited := backAverage\n\tif d.tempThreshMin != 0 {\n\t\tlimited = math.Max(float64(d.tempThreshMin), limited)\n\t}\n\tif d.tempThreshMax != 0 {\n\t\tlimited = math.Min(float64(d.tempThreshMax), limited)\n\t}\n\td.tempThresh = uint16(limited)", False))
 
+BO = "cmd/thermal-recorder/boson.go"
+benign("boson-hoisted-row-test", "Boson parser with the row test hoisted out of the pixel loop and the decoded value tested directly (correct refactor)",
+       (BO, "\ti := 0\n\tfor y, row := range out.Pix {\n\t\tfor x := range row {\n\t\t\tout.Pix[y][x] = binary.LittleEndian.Uint16(raw[i : i+2])\n\t\t\tonEdge := y < edgePixels || x < edgePixels || y >= (len(out.Pix)-edgePixels) || x >= (len(row)-edgePixels)\n\t\t\tif !onEdge && out.Pix[y][x] == 0 {\n\t\t\t\terr := fmt.Errorf(\"bad pixel (%d,%d) of %d\", y, x, out.Pix[y][x])",
+        "\trows := len(out.Pix)\n\ti := 0\n\tfor y, row := range out.Pix {\n\t\tcols := len(row)\n\t\tinteriorRow := y >= edgePixels && y < rows-edgePixels\n\t\tfor x := range row {\n\t\t\tv := binary.LittleEndian.Uint16(raw[i : i+2])\n\t\t\tout.Pix[y][x] = v\n\t\t\tif v == 0 && interiorRow && x >= edgePixels && x < cols-edgePixels {\n\t\t\t\terr := fmt.Errorf(\"bad pixel (%d,%d) of %d\", y, x, v)", False))
+
 here = os.path.dirname(os.path.abspath(__file__))
 for f in os.listdir(os.path.join(here, "benign")):
     os.unlink(os.path.join(here, "benign", f))
